@@ -127,7 +127,7 @@ def grammar_rows(maxtok, with_ic):
 def _corpus_rows(limit=400):
     """rows of the repo's own test corpus (inputs only) for translator validation"""
     rows = []
-    base = "/repo/tests/annet/test_patch"
+    base = os.path.join(os.environ.get("VT_REPO", "/repo"), "tests/annet/test_patch")
     rnd = random.Random(rt.SEED)
     try:
         for fn in sorted(os.listdir(base)):
